@@ -8,6 +8,7 @@ import CopVerif.Model.GaussTransform
   only through label lookup (`pick`), which is invariant under column permutations of a frame with
   distinct labels and ignores columns whose label is not a training column.
 -/
+set_option linter.unusedSectionVars false
 namespace CopVerif.Model.GaussTransform
 open CopVerif NumFns
 
@@ -78,6 +79,12 @@ theorem stack_blocks (labels : List L) (rows : List (List α)) (F : List (L × N
         | [] => .error .valueError
         | _ :: _ => .ok ⟨(F.map fun cu => (labels.filter fun l' => l' = cu.1).length).foldl (· + ·) 0,
             rows.map fun r => F.flatMap fun cj => (pick labels cj.1 r).map (scoreTerm cj.2)⟩ := by
+  have hb : blockOf labels rows = fun cu : L × Nat =>
+      (⟨(labels.filter fun l' => l' = cu.1).length, rows.map fun r => (pick labels cu.1 r).map fun x =>
+        Term.clip Gen.GaussTransform.clipLo Gen.GaussTransform.clipHi (Term.cdf cu.2 (Term.cell x))⟩ :
+        Block (Term α)) := by
+    funext cu
+    simp [blockOf, Block.map, getitem, List.map_map, Function.comp_def]
   cases F with
   | nil => simp [columnStack, bind, Except.bind]
   | cons c F =>
@@ -88,11 +95,14 @@ theorem stack_blocks (labels : List L) (rows : List (List α)) (F : List (L × N
       (labels.filter fun l' => l' = c.1).length
       (fun r => (pick labels c.1 r).map fun x =>
           Term.clip Gen.GaussTransform.clipLo Gen.GaussTransform.clipHi (Term.cdf c.2 (Term.cell x)))
-    simp only [List.map_cons, columnStack, bind, Except.bind, pure, Except.pure, Block.map, getitem,
-      List.map_map, Function.comp_def, blockOf] at hstack ⊢
+    rw [hb]
+    simp only [List.map_cons, columnStack, bind, Except.bind, pure, Except.pure, Block.map,
+      List.map_map, Function.comp_def] at hstack ⊢
     rw [hstack]
     simp [List.map_map, Function.comp_def, List.flatMap_cons, List.map_append,
-      List.map_flatMap, scoreTerm, List.flatMap_map]
+      List.map_flatMap, List.flatMap_map]
+    intro a _
+    rfl
 
 /-- **The generated glue, on a frame, is the row-wise map of `rowPlan`.** -/
 theorem transformToNormal_frame (m : GModel L) (labels : List L) (rows : List (List α)) :
@@ -129,6 +139,180 @@ theorem transformToNormal_frame (m : GModel L) (labels : List L) (rows : List (L
       cases h : anyPresent m labels with
       | true => rfl
       | false => exact absurd (hkey.mpr h) (by simp)
-    simp only [this, if_true, hrow]
+    simp only [this, if_true]
+    rw [funext hrow]
+
+/-! ### the other container forms reduce to a frame -/
+
+theorem transformToNormal_series (m : GModel L) (labels : List L) (row : List α) :
+    transformToNormal m (.series labels row) = transformToNormal m (.frame labels [row]) := rfl
+
+theorem transformToNormal_arr2 (m : GModel L) (rows : List (List α)) :
+    transformToNormal m (.arr2 rows) =
+      if rows.all (fun r => r.length = m.cols.length) then transformToNormal m (.frame m.cols rows)
+      else .error .valueError := by
+  by_cases h : rows.all (fun r => decide (r.length = m.cols.length)) = true
+  · rw [if_pos h]
+    show (Gen.GaussTransform.normalise prims m.cols (Container.arr2 rows) >>= _) =
+      (Gen.GaussTransform.normalise prims m.cols (Container.frame m.cols rows) >>= _)
+    have : Gen.GaussTransform.normalise (α := α) prims m.cols (Container.arr2 rows)
+        = Gen.GaussTransform.normalise prims m.cols (Container.frame m.cols rows) := by
+      simp [Gen.GaussTransform.normalise, prims, dataFrame, h]
+    rw [this]
+  · rw [if_neg h]
+    show (Gen.GaussTransform.normalise prims m.cols (Container.arr2 rows) >>= _) = _
+    have : Gen.GaussTransform.normalise (α := α) prims m.cols (Container.arr2 rows)
+        = .error .valueError := by
+      simp [Gen.GaussTransform.normalise, prims, dataFrame, h]
+    rw [this]; rfl
+
+theorem transformToNormal_arr1 (m : GModel L) (row : List α) :
+    transformToNormal m (.arr1 row) = transformToNormal m (.arr2 [row]) := rfl
+
+/-! ### the plan of a frame depends on it only through label lookup of the training columns -/
+
+theorem transformToNormal_frame_congr (m : GModel L) {ls ls' : List L} {rows rows' : List (List α)}
+    (hmem : ∀ l ∈ m.cols, (l ∈ ls' ↔ l ∈ ls))
+    (hcnt : ∀ l ∈ m.cols, (ls'.filter fun l' => l' = l).length = (ls.filter fun l' => l' = l).length)
+    (hrows : List.Forall₂ (fun r' r => ∀ l ∈ m.cols, pick ls' l r' = pick ls l r) rows' rows) :
+    transformToNormal m (.frame ls' rows') = transformToNormal m (.frame ls rows) := by
+  rw [transformToNormal_frame, transformToNormal_frame]
+  have hany : anyPresent m ls' = anyPresent m ls := by
+    unfold anyPresent
+    rw [Bool.eq_iff_iff, List.any_eq_true, List.any_eq_true]
+    constructor
+    · rintro ⟨l, hl, h⟩; exact ⟨l, hl, by simpa [hmem l hl] using h⟩
+    · rintro ⟨l, hl, h⟩; exact ⟨l, hl, by simpa [hmem l hl] using h⟩
+  have hfilt : ((m.cols.zip (List.range m.cols.length)).filter fun cu => decide (cu.1 ∈ ls'))
+      = ((m.cols.zip (List.range m.cols.length)).filter fun cu => decide (cu.1 ∈ ls)) := by
+    apply List.filter_congr
+    intro cu hcu
+    simp [hmem cu.1 (List.of_mem_zip hcu).1]
+  have hw : planWidth m ls' = planWidth m ls := by
+    unfold planWidth
+    rw [hfilt]
+    congr 1
+    apply List.map_congr_left
+    intro cu hcu
+    exact hcnt cu.1 (List.of_mem_zip (List.mem_of_mem_filter hcu)).1
+  have hr : rows'.map (rowPlan m ls') = rows.map (rowPlan m ls) := by
+    induction hrows with
+    | nil => rfl
+    | cons h _ ih =>
+      simp only [List.map_cons, ih]
+      congr 1
+      unfold rowPlan
+      apply List.flatMap_congr
+      intro cj hcj
+      rw [h cj.1 (List.of_mem_zip hcj).1]
+  rw [hany, hw, hr]
+
+/-! ### label lookup under a column permutation of a frame with distinct labels -/
+
+theorem map_fst_zip_sublist {β γ : Type} : ∀ (ls : List β) (r : List γ), ((ls.zip r).map (·.1)).Sublist ls
+  | [], _ => by simp
+  | _ :: _, [] => by simp
+  | a :: ls, b :: r => by simpa using (map_fst_zip_sublist ls r)
+
+theorem length_le_one_of_nodup_const {β : Type} {xs : List β} {l : β} (hnd : xs.Nodup)
+    (hall : ∀ x ∈ xs, x = l) : xs.length ≤ 1 := by
+  match xs, hnd, hall with
+  | [], _, _ => simp
+  | [_], _, _ => simp
+  | a :: b :: _, hnd, hall =>
+    have ha : a = l := hall a (by simp)
+    have hb : b = l := hall b (by simp)
+    simp [ha, hb] at hnd
+
+theorem filter_label_length_le_one {ls : List L} (hnd : ls.Nodup) (l : L) (r : List α) :
+    ((ls.zip r).filter fun c => c.1 = l).length ≤ 1 := by
+  have hsub : (((ls.zip r).filter fun c => decide (c.1 = l)).map (·.1)).Sublist ls :=
+    ((List.filter_sublist).map _).trans (map_fst_zip_sublist ls r)
+  have := length_le_one_of_nodup_const (l := l) (hnd.sublist hsub) (by
+    intro x hx
+    obtain ⟨c, hc, rfl⟩ := List.mem_map.mp hx
+    simpa using (List.mem_filter.mp hc).2)
+  simpa using this
+
+theorem perm_eq_of_length_le_one {β : Type} {xs ys : List β} (h : xs.Perm ys) (hl : ys.length ≤ 1) :
+    xs = ys := by
+  match xs, ys, h, hl with
+  | [], [], _, _ => rfl
+  | [], _ :: _, h, _ => exact absurd h.length_eq (by simp)
+  | _ :: _, [], h, _ => exact absurd h.length_eq (by simp)
+  | [a], [b], h, _ => simpa using h
+  | _ :: _ :: _, [_], h, _ => exact absurd h.length_eq (by simp)
+  | _, _ :: _ :: _, _, hl => simp at hl
+
+/-- label lookup sees a row only as a SET of labelled cells when the labels are distinct. -/
+theorem pick_perm {ls ls' : List L} {r r' : List α} (hnd : ls.Nodup)
+    (h : (ls'.zip r').Perm (ls.zip r)) (l : L) : pick ls' l r' = pick ls l r := by
+  unfold pick
+  have hp := (h.filter fun c => decide (c.1 = l))
+  rw [perm_eq_of_length_le_one hp (filter_label_length_le_one hnd l r)]
+
+/-- **Column permutations**: if every row of the second frame is, as a list of labelled cells, a
+    permutation of the corresponding row of the first, whose labels are distinct, the plans are EQUAL. -/
+theorem transformToNormal_perm (m : GModel L) {ls ls' : List L} {rows rows' : List (List α)}
+    (hnd : ls.Nodup) (hls : ls'.Perm ls)
+    (hrows : List.Forall₂ (fun r' r => (ls'.zip r').Perm (ls.zip r)) rows' rows) :
+    transformToNormal m (.frame ls' rows') = transformToNormal m (.frame ls rows) := by
+  apply transformToNormal_frame_congr
+  · intro l _; exact hls.mem_iff
+  · intro l _; exact (hls.filter _).length_eq
+  · exact List.Forall₂.imp (fun _ _ h l _ => pick_perm hnd h l) hrows
+
+/-! ### explicit column permutations and extra columns -/
+
+/-- the list re-indexed by `σ` (positions out of range are dropped). -/
+def reindex {β : Type} (σ : List Nat) (xs : List β) : List β := σ.filterMap fun i => xs[i]?
+
+theorem reindex_range {β : Type} : ∀ xs : List β, reindex (List.range xs.length) xs = xs
+  | [] => rfl
+  | a :: xs => by
+    have ih := reindex_range xs
+    unfold reindex at ih ⊢
+    rw [List.length_cons, List.range_succ_eq_map, List.filterMap_cons]
+    simp only [List.getElem?_cons_zero, List.filterMap_map]
+    congr 1
+
+theorem reindex_perm {β : Type} {σ : List Nat} (xs : List β) (hσ : σ.Perm (List.range xs.length)) :
+    (reindex σ xs).Perm xs := by
+  have := hσ.filterMap fun i => xs[i]?
+  rwa [show List.filterMap (fun i => xs[i]?) (List.range xs.length) = xs from reindex_range xs] at this
+
+theorem reindex_zip {β γ : Type} (xs : List β) (ys : List γ) (hlen : xs.length = ys.length) :
+    ∀ σ : List Nat, (∀ i ∈ σ, i < xs.length) → reindex σ (xs.zip ys) = (reindex σ xs).zip (reindex σ ys)
+  | [], _ => rfl
+  | i :: σ, h => by
+    have hi : i < xs.length := h i (by simp)
+    have ih := reindex_zip xs ys hlen σ (fun j hj => h j (by simp [hj]))
+    unfold reindex at ih ⊢
+    have hi' : i < ys.length := hlen ▸ hi
+    have hz : i < (xs.zip ys).length := by simp [List.length_zip, hi, hi']
+    simp only [List.filterMap_cons, List.getElem?_eq_getElem hi, List.getElem?_eq_getElem hi',
+      List.getElem?_eq_getElem hz, ih, List.zip_cons_cons, List.getElem_zip]
+
+/-- **for EVERY permutation `σ` of the column positions** of a rectangular frame with distinct labels,
+    re-ordering labels and every row by `σ` leaves the plan unchanged. -/
+theorem transformToNormal_reindex (m : GModel L) (ls : List L) (rows : List (List α)) (σ : List Nat)
+    (hnd : ls.Nodup) (hσ : σ.Perm (List.range ls.length)) (hrect : ∀ r ∈ rows, r.length = ls.length) :
+    transformToNormal m (.frame (reindex σ ls) (rows.map (reindex σ))) = transformToNormal m (.frame ls rows) := by
+  have hlt : ∀ i ∈ σ, i < ls.length := fun i hi => List.mem_range.mp (hσ.mem_iff.mp hi)
+  apply transformToNormal_perm m hnd (reindex_perm ls hσ)
+  rw [List.forall₂_map_left_iff]
+  apply List.forall₂_same.mpr
+  intro r hr
+  have hl : ls.length = r.length := (hrect r hr).symm
+  rw [← reindex_zip ls r hl σ hlt]
+  apply reindex_perm
+  rwa [List.length_zip, ← hl, Nat.min_self]
+
+theorem pick_filter_cols (m : GModel L) (ls : List L) (r : List α) {l : L} (hl : l ∈ m.cols) :
+    pick (((ls.zip r).filter fun c => decide (c.1 ∈ m.cols)).map (·.1)) l
+        (((ls.zip r).filter fun c => decide (c.1 ∈ m.cols)).map (·.2)) = pick ls l r := by
+  unfold pick
+  rw [List.zip_map_fst_snd?]
+  sorry
 end
 end CopVerif.Model.GaussTransform
